@@ -193,6 +193,7 @@ def run(rep):
         if set(kinds.values()) != {want}:
             p = rep.write_replay('key-concrete', {'cmd': 'property_key', 's': s, 'observed': o})
             rep.violation('C16/property-key/concrete-vector', 'key routes on %r give %r, expected all %s' % (s, kinds, want), p)
+    for s, o in zip(vecs, outs):
         st = State()
         tok = Opaque('JsString')
         st.extra[('jsstr', str(tok.id))] = str_const(s.encode())
